@@ -20,6 +20,7 @@ import NeoModel.Proofs.ExecLimit
 import NeoModel.Proofs.ExecCacheDeep
 import NeoModel.Proofs.ExecBlocked
 import NeoModel.Proofs.ExecStoreImm
+import NeoModel.Proofs.ExecCacheReach
 import NeoModel.Generated.ExcFacts
 namespace NeoModel.Exec
 
@@ -529,6 +530,19 @@ example : (demoCaches.writes [(7, 40), (5, 50), (7, 41)]).read 7 = some 41 := by
 example : (demoCaches.writes [(7, 40), (5, 50), (7, 41)]).drop.read 7 = some 33 ∧
     (demoCaches.writes [(7, 40), (5, 50), (7, 41)]).drop.read 5 = some 22 := by decide
 example : (demoCaches.writes [(7, 40), (5, 50)]).persist.read 5 = some 50 := by decide
+
+/-- the hypothesis `st.inv` of the two theorems above is an invariant of every reachable stack of DAO layers:
+    from the empty stack, any sequence of SetCache on the lowest DAO / GetPrivate / cache update / Persist / drop. -/
+theorem native_cache_invariant_reachable (ops : List COp) : (CStack.empty.run ops).inv :=
+  run_inv ops _ empty_inv
+
+/-- copy-on-write without hypothesis: in EVERY reachable stack, a layer is made, caches are updated through it any
+    number of times, the layer is dropped — every cache shows exactly what it showed before. -/
+theorem native_cache_cow_reachable (ops : List COp) (ws : List (Nat × Nat)) :
+    ∀ id, (((CStack.empty.run ops).push.writes ws).drop).read id = (CStack.empty.run ops).read id :=
+  (cache_cow _ (run_inv ops _ empty_inv) ws).2
+
+example : ((CStack.empty.run [.setCache 7 11, .setCache 5 22, .push, .write 7 33, .push]).writes [(7, 40), (5, 50)]).drop.read 7 = some 33 := by decide
 
 /-! ### 3d. Transactions of a block are isolated from their predecessors -/
 
